@@ -290,6 +290,33 @@ def check_b(ck, repo):
     ga = [c for c in own_nodes_incl_lambda(ap.node) if isinstance(c, ast.Call) and src_of(c.func) == "getattr"]
     okm = any(len(c.args) == 2 and src_of(c.args[0]) == "self.mean_estimator_" and src_of(c.args[1]) == "method" for c in ga)
     ck.verdict(okm, "C08.b", ap, "getattr(self.mean_estimator_, method)", "uncovered rows use the fallback's method of the same name", "uncovered rows are not sent to getattr(self.mean_estimator_, method)")
+    # the fallback answers whenever at least one row has no bucket
+    ex_ = expander(repo)
+    fstores = []
+    for x in own_nodes(ap.node):
+        if isinstance(x, ast.Assign) and isinstance(x.targets[0], ast.Subscript) and isinstance(x.value, (ast.Call, ast.Name)):
+            with ex_.lenient():
+                vt = ex_.text(x.value, ap, x)
+            if "getattr(self.mean_estimator_" in vt:
+                fstores.append(x)
+    for x in fstores:
+        with ex_.lenient():
+            M = ex_.text(x.targets[0].slice, ap, x)
+        Xp = ap.named_params[1]
+        rows = [f"{Xp}[{M}]", f"{Xp}[{M}, :]"]
+        okforms = set()
+        for r_ in rows:
+            okforms |= {cond_text(f"{r_}.shape[0] > 0"), cond_text(f"len({r_}) > 0"), cond_text(f"{r_}.shape[0]"), cond_text(f"len({r_})"), cond_text(f"{r_}.shape[0] == 0", False), cond_text(f"{r_}.shape[0] >= 1"), cond_text(f"{r_}.size > 0")}
+        okforms |= {cond_text(f"({M}).any()"), cond_text(f"numpy.any({M})"), cond_text(f"({M}).sum() > 0"), cond_text(f"numpy.count_nonzero({M}) > 0"), cond_text(f"({M}).sum()"), cond_text(f"numpy.sum({M}) > 0"), cond_text(f"({M}).sum() >= 1")}
+        cs = list(conds_at(repo, ap, x))
+        other = [c_ for c_ in cs if c_ not in okforms]
+        every = [c_ for c_ in other if c_[1] and (".all()" in c_[0] or "numpy.all(" in c_[0] or "numpy.alltrue(" in c_[0])]
+        if every:
+            ck.violated("C08.b", ap, x, f"the fallback answers the uncovered rows only when {every[0][0][:80]} (every row of the batch is uncovered): in a batch that mixes covered and uncovered rows the uncovered ones keep the initial zeros instead of the fallback model's output")
+        elif other:
+            ck.unknown("C08.b", ap, x, f"the fallback store is guarded by {[c_[0][:60] for c_ in other]}, which is not one of the spellings of 'at least one uncovered row' this rule reads")
+        else:
+            ck.holds("C08.b", ap, x, "the fallback answers as soon as one row has no bucket")
     # public methods pass their own name and the matching worker
     table = {"predict": "_predict_piecewise_estimator", "predict_proba": "_predict_proba_piecewise_estimator", "decision_function": "_decision_function_piecewise_estimator"}
     for cname in ("PiecewiseRegressor", "PiecewiseClassifier"):
